@@ -162,9 +162,10 @@ type context struct {
 	goPkg       *ssa.Package
 	pyMod       string
 	skips       map[string]none
-	loaded      map[*types.Package]*pkgInfo // loaded packages
-	bvals       map[ssa.Value]llssa.Expr    // block values
-	vargs       map[*ssa.Alloc][]llssa.Expr // varargs
+	loaded      map[*types.Package]*pkgInfo       // loaded packages
+	bvals       map[ssa.Value]llssa.Expr          // block values
+	boxed       map[*ssa.MakeInterface]llssa.Expr // large values boxed at their load (see compileInstrOrValue)
+	vargs       map[*ssa.Alloc][]llssa.Expr       // varargs
 	funcs       map[*ssa.Function]llssa.Function
 	stackDefers map[*ssa.Function]bool
 	anonDefers  map[*ssa.Function]bool
@@ -448,6 +449,7 @@ func (p *context) compileFuncDecl(pkg llssa.Package, f *ssa.Function) (llssa.Fun
 				b.DebugFunction(fn, pos, bodyPos)
 			}
 			p.bvals = make(map[ssa.Value]llssa.Expr)
+			p.boxed = nil
 			off := make([]int, len(f.Blocks))
 			if isCgo {
 				p.cgoArgs = make([]llssa.Expr, len(f.Params))
@@ -872,11 +874,20 @@ func (p *context) compileInstrOrValue(b llssa.Builder, iv instrOrValue, asValue 
 				return
 			}
 			if refs := v.Referrers(); refs != nil && len(*refs) == 1 {
-				if _, ok := (*refs)[0].(*ssa.MakeInterface); ok {
+				if mi, ok := (*refs)[0].(*ssa.MakeInterface); ok {
 					if t := p.type_(v.Type(), llssa.InGo); t.RawType() != nil {
 						if p.isLargeNonPointerValue(t) {
-							// Skip the load: the MakeInterface handler below copies
-							// from the original pointer and preserves the nil check.
+							// Skip the by-value load, but box the value here, at the
+							// position of the load: the interface must hold the memory
+							// contents as of the load (and the nil check belongs here),
+							// whatever is stored through the pointer before the
+							// MakeInterface executes.
+							ptr := p.compileValue(b, v.X)
+							p.assertNilDerefBase(b, v.X)
+							if p.boxed == nil {
+								p.boxed = make(map[*ssa.MakeInterface]llssa.Expr)
+							}
+							p.boxed[mi] = b.MakeInterfaceFromPtr(p.type_(mi.Type(), llssa.InGo), ptr)
 							return
 						}
 					}
@@ -985,7 +996,11 @@ func (p *context) compileInstrOrValue(b llssa.Builder, iv instrOrValue, asValue 
 			}
 		}
 		t := p.type_(v.Type(), llssa.InGo)
-		if unop, ok := v.X.(*ssa.UnOp); ok && unop.Op == token.MUL {
+		if boxed, ok := p.boxed[v]; ok {
+			ret = boxed
+			break
+		}
+		if unop, ok := v.X.(*ssa.UnOp); ok && unop.Op == token.MUL && loadDirectlyPrecedes(unop, v) {
 			if vt := p.type_(unop.Type(), llssa.InGo); vt.RawType() != nil {
 				if p.isLargeNonPointerValue(vt) {
 					if ptr := p.compileValue(b, unop.X); ptr.Type != nil {
@@ -1088,6 +1103,28 @@ func (p *context) farFromNilBase(base ssa.Value, extent func(t llssa.Type) uint6
 		return false
 	}
 	return extent(t) >= minNilFaultOffset
+}
+
+// loadDirectlyPrecedes reports whether the load v is immediately followed by
+// instr in the same block (debug refs aside), so that re-reading v.X at instr
+// observes the memory the load observed.
+func loadDirectlyPrecedes(v *ssa.UnOp, instr ssa.Instruction) bool {
+	if v.Block() != instr.Block() {
+		return false
+	}
+	instrs := v.Block().Instrs
+	for i, ins := range instrs {
+		if ins != ssa.Instruction(v) {
+			continue
+		}
+		for _, next := range instrs[i+1:] {
+			if _, ok := next.(*ssa.DebugRef); ok {
+				continue
+			}
+			return next == instr
+		}
+	}
+	return false
 }
 
 func (p *context) assertNilDerefBase(b llssa.Builder, addr ssa.Value) {
